@@ -554,8 +554,23 @@ package meta
 //@ prop C15
 //@ func (*MeasurementInfo).unmarshal
 //@   trusted_assigns msti
+//@ func UnmarshalTime
+//@   ensures (v == 0 ==> result == TIME_ZERO) && (v != 0 ==> result == v)
+//@   assigns nothing
+// The span of a restored shard group is exactly the span that was saved, also when a bound is the Unix epoch
+// (which is stored as 0 like the zero time: a group bound is never the zero time, so 0 means the epoch here).
 //@ func (*ShardGroupInfo).unmarshal
 //@   trusted_assigns sgi
+//@   ghost st0 int64 = 0
+//@   ghost en0 int64 = 0
+//@   call .GetStartTime
+//@     set st0 = ret0
+//@   call .GetEndTime
+//@     set en0 = ret0
+//@   store ShardGroupInfo.StartTime
+//@     requires [start_restored] val == st0
+//@   store ShardGroupInfo.EndTime
+//@     requires [end_restored] val == en0
 //@ func (*IndexGroupInfo).unmarshal
 //@   trusted_assigns igi
 //@ func (*SubscriptionInfo).unmarshal
